@@ -380,6 +380,8 @@ Definition expected_export (typ key : string) : option string :=
   | "Oneof" => match key with
                | "Description" => Some "s.description" | "Name" => Some "s.name" | "Properties" => Some "properties" | _ => None
                end
+  (* ObjectSchema.ToJ5Root wraps what ToJ5Object built (`built := s.ToJ5Object()`) *)
+  | "RootSchema_Object" => match key with "Object" => Some "built" | _ => None end
   | "ObjectProperty" => match key with
                         | "Schema" => Some "prop.Schema.ToJ5Field()" | "Name" => Some "prop.JSONName"
                         | "Required" | "ExplicitlyOptional" | "Description" => sel "prop."
